@@ -137,16 +137,26 @@ def _all_classes():
     return [dict(kind=k, rational=r) for k in ('curve', 'surface', 'volume') for r in (False, True)]
 
 
+def _all_classes_ids():
+    out = [dict(kind=k, rational=r, ident=0) for k in ('curve', 'surface', 'volume') for r in (False, True)]
+    out += [dict(kind=k, rational=(i % 2 == 1), ident=i) for k in ('curve', 'surface', 'volume') for i in (1, 2, 3, 4, 5, 6)]
+    return out
+
+
 # ------------------------------------------------------------------------------------------------
 @scenario('C19', fns=['abstract.SplineGeometry.__eq__', 'abstract.SplineGeometry.__ne__', 'abstract.GeomdlBase.__deepcopy__',
                       'NURBS.Curve.__deepcopy__', 'NURBS.Surface.__deepcopy__', 'NURBS.Volume.__deepcopy__'],
-          quick=_all_classes)
-def eq_basic(ctx, kind, rational):
+          quick=_all_classes_ids)
+def eq_basic(ctx, kind, rational, ident=0):
     """requires: any valid shape of the class (symbolic knots, control points, positive weights)
        ensures : a == a, not a != a; deepcopy(a) == a (both ways, also after the view caches of a rational a were
                  filled); an independently built shape with the same definition == a"""
     d = _data(ctx, kind, rational)
     a = _obj(ctx, d)
+    # optional identity fields are part of "any shape": ids that coincide with a degree or a size must not matter
+    a.id = ident
+    if ident:
+        a.name = 'shape-%d' % ident
     r, n = _compare(ctx, lambda: a == a), _compare(ctx, lambda: a != a)
     ctx.check_true('reflexive.returns_bool', isinstance(r, bool) and isinstance(n, bool))
     _verdict(ctx, 'reflexive.equal', r, True)
